@@ -3,7 +3,8 @@
    forecast and its index).  The model is run with the same doubles, written here in Gallina;
    `mism` lists the indices on which it disagrees. *)
 From Coq Require Import ZArith List Bool.
-Require Import SkV.Lib.Base SkV.Lib.ZRange SkV.C05.Model.
+Require Import SkV.Lib.Base SkV.Lib.ZRange SkV.C05.Model SkV.C05.Hist.
+Require SkV.C10.Model.
 Import ListNotations.
 Open Scope Z_scope.
 
@@ -47,6 +48,36 @@ Definition d_predm (m : dM) (x : xrow) : list Z :=
 
 Definition model_run := reduce dM d_fit1 d_fitm d_pred1 d_predm.
 
+(* histories (Hist.v) with the same doubles *)
+Definition model_hist := hist dM d_fit1 d_fitm d_pred1 d_predm.
+Definition tser_eqb (a b : tser) : bool :=
+  list_eqb (fun p q => (fst p =? fst q) && (snd p =? snd q)) a b.
+Definition hev_eqb (a b : hev) : bool :=
+  match a, b with
+  | EvFit f, EvFit g => fitcall_eqb f g
+  | EvPred c k x, EvPred c' k' x' => (c =? c') && (k =? k') && xrow_eqb x x'
+  | _, _ => false
+  end.
+Definition fcast_eqb (a b : fcast) : bool :=
+  zl_eqb (fst a) (fst b) &&
+  match snd a, snd b with
+  | Some v, Some w => zl_eqb v w
+  | None, None => true
+  | _, _ => false
+  end.
+Definition hres_eqb (a b : hres) : bool :=
+  match a, b with
+  | RNone, RNone => true
+  | RPred f, RPred g => fcast_eqb f g
+  | RMoving l, RMoving m => list_eqb fcast_eqb l m
+  | RErr, RErr => true
+  | _, _ => false
+  end.
+Definition hout_eqb (a b : hout) : bool :=
+  let '(ev, r, c, m) := a in
+  let '(ev', r', c', m') := b in
+  list_eqb hev_eqb ev ev' && hres_eqb r r' && (c =? c') && tser_eqb m m'.
+
 (* implementation output of a run: None = rejected (ValueError / NotImplementedError) *)
 Definition impl_run := option (list fitcall * list (Z * xrow) * list Z * list Z).
 
@@ -55,6 +86,12 @@ Inductive case :=
      news = per variable the appended observations ([] each when there is no update) *)
   | CRun (st : strategy) (sc : scitype) (y : list Z) (xs : list (list Z)) (wl : Z) (fh : list Z)
          (xfut : list (list Z)) (news : list (list Z)) (off : Z) (o : impl_run)
+  (* a call history: fit(y, X, fh) at labels t0, t0+1, .. followed by update / predict /
+     update_predict_single / update_predict calls; per call the regressor events (with the
+     forecaster's cutoff at the time of every predict call), the returned forecast(s), the cutoff
+     and the remembered target series afterwards; None = fit refused *)
+  | CHist (st : strategy) (sc : scitype) (wl t0 : Z) (y : list Z) (xs : list (list Z))
+          (fh : option (list Z)) (ops : list hop) (o : option (list hout))
   (* direct call of _sliding_window_transform(y, wl, fh, X, scitype) *)
   | CSwt (sc : scitype) (y : list Z) (xs : list (list Z)) (wl : Z) (fh : list Z)
          (o : option (list (list Z) * list xrow))
@@ -82,6 +119,12 @@ Definition check (c : case) : bool :=
   | CRun st sc y xs wl fh xfut news off o =>
       agree_run (model_run st sc y xs wl fh xfut news)
                 (forecast_index off (zlen y + zlen (hd [] news)) fh) o
+  | CHist st sc wl t0 y xs fh ops o =>
+      match model_hist st sc wl t0 y xs fh ops, o with
+      | Err, None => true
+      | Ok l, Some l' => list_eqb hout_eqb l l'
+      | _, _ => false
+      end
   | CSwt sc y xs wl fh o =>
       match swt_view sc y xs wl fh, o with
       | Err, None => true
